@@ -83,6 +83,32 @@ def length_scripts(group, outdir):
         vflib.write_ndjson(os.path.join(outdir, "beh_%s_len%s.ndjson" % (group, str(n).replace("-", "split"))), lines)
 
 
+ALL_CLASSES = ["valid", "badlen", "badserial", "serial0", "badcode", "badproto", "proto19", "malformed"]
+GROUP_CALLS = {
+    "G_bcast_eph": {"a": {"path": "bcast", "kind": "normal", "ctl": "S1"}, "b": {"path": "bcast", "kind": "status", "ctl": "S2"}},
+    "G_udp_eph": {"a": {"path": "udp", "kind": "normal", "ctl": "S1"}, "b": {"path": "udp", "kind": "status", "ctl": "S2"}},
+    "G_tcp_eph": {"a": {"path": "tcp", "kind": "normal", "ctl": "S1"}, "b": {"path": "tcp", "kind": "setaddr", "ctl": "S2"}},
+    "G_mixed_eph": {"a": {"path": "bcast", "kind": "normal", "ctl": "S1"}, "b": {"path": "udp", "kind": "setaddr", "ctl": "S2"}, "c": {"path": "tcp", "kind": "status", "ctl": "S3"}},
+}
+
+
+def class_scripts(group, outdir):
+    """Hand-made behaviours of Transport.tla: every datagram class as the FIRST answer to an ordinary call and to a status
+    call (the only function for which protocol id 0x19 is legitimate) on every path - followed, where the group allows two
+    replies, by the genuine reply one tick later. What Recv does with each class is the model's Verdict()."""
+    os.makedirs(outdir, exist_ok=True)
+    calls = GROUP_CALLS[group]
+    hdr = {"a": "Cfg", "T": 3, "fixed": False, "group": group, "calls": calls}
+    two = group in ("G_bcast_eph", "G_udp_eph")
+    for c, cfg in sorted(calls.items()):
+        if cfg["kind"] == "setaddr" or (group == "G_mixed_eph" and c != "c"):
+            continue
+        for cls in ALL_CLASSES:
+            plan = [[cls, 0], ["valid", 1]] if two else [[cls, 0]]
+            lines = [hdr, {"a": "Enter", "c": c, "t": 0}, {"a": "Send", "c": c, "t": 0, "plan": plan}]
+            vflib.write_ndjson(os.path.join(outdir, "beh_%s_cls_%s_%s.ndjson" % (group, c, cls)), lines)
+
+
 def fault_then_next_scripts(outdir):
     """Hand-made behaviours of Transport.tla for G_mixed_fixed (a: bcast S1, b: udp set-address S2, c: tcp status S3 on one
     fixed bind port): the TCP call meets each peer fault in turn, and the calls that queue behind it must be served
@@ -176,6 +202,8 @@ def run_groups(v, groups, n, tick=50, race=False, parts_fixed=6, classify=None, 
         for g in groups:
             if g in ("G_bcast_eph", "G_udp_eph", "G_tcp_eph"):
                 length_scripts(g, sdir)
+            if g in GROUP_CALLS:
+                class_scripts(g, sdir)
     total = {"scenarios": 0, "accepted": 0, "rejected": 0, "calls": 0, "unreproduced": 0, "states": 0, "transitions": 0}
     drift = {"fd": 0, "goroutines": 0}
     samples = []
